@@ -141,7 +141,9 @@ func UniqueKeyFromLabelsSelector(ls *v1.LabelSelector) (string, error) {
 		if newStr != "" {
 			currentStr = newStr
 		}
-		reqStr += currentStr
+		// the separator keeps the requirements apart: without it "app" + "tier" (two Exists requirements) and "apptier" (one)
+		// would get the same key although SelectorsFullMatch tells them apart
+		reqStr += currentStr + ";"
 	}
 	return hex.EncodeToString(sha1.New().Sum([]byte(reqStr))), nil //nolint:gosec // Non-crypto use
 }
